@@ -121,3 +121,7 @@ impl<'a> AsRef<[(&'a str, &'a str)]> for OrderedHeaders<'a> {
         self.headers.as_ref()
     }
 }
+
+// verification hook (compiled only under `cargo kani`, see /verif/MANIFEST.json hooks)
+#[cfg(kani)]
+include!(concat!(env!("VERIF_KANI_INC"), "/s3s_http_ordered_headers.rs"));
